@@ -777,6 +777,10 @@ bool World::exec_table_op(const Step& s)
                 check_purity_begin();
                 table_check(op, touched);
                 check_purity_end("table-check");
+                // the public track / crate API observing rows that the table API wrote (derived columns may be out of step)
+                check_purity_begin();
+                (void)observe();
+                check_purity_end("observe-after-table-write");
                 purity_extras();
                 probes.hit("purity_checked");
             }
